@@ -47,14 +47,7 @@ impl SessionDescription {
 
     pub fn add_candidates(&mut self, candidates: &[String]) {
         for section in &mut self.media_sections {
-            section
-                .attributes
-                .retain(|a| a.key != "candidate" && a.key != "end-of-candidates");
-            for c in candidates {
-                section
-                    .attributes
-                    .push(Attribute::new("candidate", Some(c.clone())));
-            }
+            section.insert_candidates(candidates);
             section
                 .attributes
                 .push(Attribute::new("end-of-candidates", None));
@@ -63,10 +56,7 @@ impl SessionDescription {
 
     pub fn add_candidates_incremental(&mut self, candidates: &[String]) {
         for section in &mut self.media_sections {
-            section.attributes.retain(|a| a.key != "candidate" && a.key != "end-of-candidates");
-            for c in candidates {
-                section.attributes.push(Attribute::new("candidate", Some(c.clone())));
-            }
+            section.insert_candidates(candidates);
         }
     }
 
@@ -734,6 +724,30 @@ pub struct MediaSection {
 }
 
 impl MediaSection {
+    /// Replaces the candidate attributes of the section. The candidates go where the
+    /// serialiser writes them — at the end of the leading block of transport attributes
+    /// (ice-ufrag, ice-pwd, fingerprint, setup, candidate) — so that the attribute vector
+    /// stays in serialisation order and parsing the serialised description gives back this
+    /// very description.
+    fn insert_candidates(&mut self, candidates: &[String]) {
+        self.attributes
+            .retain(|a| a.key != "candidate" && a.key != "end-of-candidates");
+        let at = self
+            .attributes
+            .iter()
+            .position(|a| {
+                !matches!(
+                    a.key.as_str(),
+                    "ice-ufrag" | "ice-pwd" | "fingerprint" | "setup"
+                )
+            })
+            .unwrap_or(self.attributes.len());
+        for (i, c) in candidates.iter().enumerate() {
+            self.attributes
+                .insert(at + i, Attribute::new("candidate", Some(c.clone())));
+        }
+    }
+
     pub fn new(kind: MediaKind, mid: impl Into<String>) -> Self {
         Self {
             kind,
